@@ -42,6 +42,7 @@ type Case struct {
 	Shape string `json:"shape"` // unary sstream cstream bidi ustream
 	Dl    bool   `json:"dl"`    // the client context carries a deadline
 	Req   int    `json:"req"`   // value of the x-req request metadata
+	Mdk   int    `json:"mdk"`   // caller's context: 0 outgoing metadata, 1 no metadata, 2 incoming metadata only
 	Steps []Step `json:"steps"`
 	// probes
 	Via    string `json:"via"`    // invoke | stream
